@@ -216,7 +216,24 @@ fn primitive_surfaces(rep: &Report, ids: &[Ident]) {
             rep.nontrivial(format!("noise-{}-{}", l, kind).as_bytes());
         }
     });
-    rep.sample(json!({"surface":"noise_decrypt","input":"every message length 0..200, 65535, 65536, 70000 x {zeros, authentic prefix, authentic then zeros}"}));
+    // authentic X handshakes (REF) whose payload is not 32 bytes: every payload length 0..80 and a large one
+    let mut plens: Vec<usize> = (0..=80).collect();
+    plens.extend([1000, 65439, 65440]);
+    plens.par_iter().for_each(|&pl| {
+        let payload = plaintext(seed ^ 0x94, pl);
+        let msg = match r::noise_x_write(&r::XRoles::honest(&r::KEY_MAGIC, &ids[0].sk, &rc.pk, &derive32(seed, "c09-ne2")), &payload) {
+            Some(m) => m.message,
+            None => return,
+        };
+        let d = || json!({"kind":"noise-payload","payload_len":pl});
+        if let Some(ok) = no_panic(rep, "noise_decrypt", d, || kestrel_crypto::noise_decrypt(&rc.private(), &rc.public(), &r::KEY_MAGIC, &msg).is_ok()) {
+            if ok != (pl == 32) {
+                rep.violation("noise_decrypt/wrong-verdict", d(), format!("noise_decrypt on an authentic handshake with a {}-byte payload returned {}", pl, if ok { "Ok" } else { "Err" }));
+            }
+        }
+        rep.nontrivial(format!("noise-payload-{}", pl).as_bytes());
+    });
+    rep.sample(json!({"surface":"noise_decrypt","input":"every message length 0..200, 65535, 65536, 70000 x {zeros, authentic prefix, authentic then zeros}; authentic handshakes with every payload length 0..80"}));
     // AEAD: every length 0..80
     let key = derive32(seed, "c09-aead");
     let auth = r::aead_seal(&key, &[0u8; 12], b"ad", &plaintext(seed, 64));
@@ -360,7 +377,7 @@ fn cli_argv(rep: &Report) {
     let count = AtomicU64::new(0);
     let slow = AtomicU64::new(0);
     let start = std::time::Instant::now();
-    let cap_s = rep.tier.pick(40.0, 900.0);
+    let cap_s = rep.tier.pick(45.0, 900.0);
     let capped = std::sync::atomic::AtomicBool::new(false);
     let completed_len = std::sync::Mutex::new(vec![0u64; maxlen + 1]);
     heads.par_iter().for_each(|head| {
@@ -376,8 +393,8 @@ fn cli_argv(rep: &Report) {
                 continue;
             }
             for (ei, env) in envs.iter().enumerate() {
-                if seq.len() == 4 && ei == 0 {
-                    continue; // length-4 vectors under the populated environment only
+                if seq.len() >= maxlen.max(3) && ei == 0 {
+                    continue; // the longest vectors under the populated environment only
                 }
                 let cmd = Cmd { args: seq.iter().map(|&i| vocab[i].clone()).collect(), env: env.clone(), stdin: proc::StdinSpec::Null, stdout_file: None, stdout_closed_pipe: false, stdin_path: None, fsize_limit: None };
                 let out = proc::run(&cmd, &sc.0);
